@@ -31,6 +31,12 @@ CHECKS = {
     "C09": dict(engine="SumProduct", ref="5/C09",
                 text="spec/SumProduct.tla enumerates every plated factor graph within the bounds (factors over all subsets of the variables and plates, canonical order) and every eliminate set, builds the brute-force unrolling as an L1 term (one copy of each eliminated variable per index of the plates it lives in, all factor instances multiplied, copies summed out) and evaluates it exactly; the harness runs sum_product, partial_sum_product in one call and in every split into two calls the spec declares valid, modified_/dynamic_partial_sum_product with empty steps, plated einsum and naive_plated_einsum and compares every value; ValueError is accepted only where eliminated variables have incomparable ordinals.",
                 note="trusted as C01; bounds quick: 2 variables + 2 plates of size 2, <=2 factors, 3 semirings (thorough: <=3 factors, 6 semirings); tractability is approximated by comparability of ordinals (a ValueError on a comparable graph is a violation, a value on any graph must be right); plate scales and free real parameters: see DESIGN.md"),
+    "C15": dict(engine="OpsAlgebra", ref="5/C15",
+                text="The six algebraic tables are recorded from the imported funsor at the start of each run and every entry is decided by TLC (spec/OpsAlgebra.tla) on the carrier grid {0, +-1, +-2, 1/2, +-inf}, its log image and the booleans: unit neutral on both sides, left and right distributivity, binary and unary inverse laws, power = repeated product for n <= 4; max/min pair with mul on non-negative values only, or/and exhaustively on {0,1}. TLC (spec/OpsGrid.tla, spec/OpsEinsum.tla) enumerates operand arrays of shapes () to (3,2) over the grid plus seeded rationals for 22 binary, 9 unary and 7 reduction ops, and all einsum equations with <= 3 operands x <= 3 symbols with -inf rows planted, with exact expectations. Each state is replayed on Python float/int, 0-d array, numpy scalar and array operands in both orders and mixes, and compared elementwise and across operand kinds. Safe ops get an allowed set: any non-NaN value at a zero divisor or at -inf - (-inf).",
+                note="trusted: TLC, Values.tla / OpsMeaning.tla (textbook meaning and domains), float conversion in harness/vals.py (rtol 1e-6, infinities exact); numpy backend, float64 and bool operands only. Float-range boundary: 28 hand-stated limit cases (OpsGrid.tla Limits), not computed by TLC. +inf is outside the carrier of logaddexp / sample / logsumexp / log-einsum. Quick samples 1/40 of the 3-operand equations by seed."),
+    "C19": dict(engine="Convert", ref="5/C19",
+                text="TLC enumerates every conversion and alignment case as a state of spec/Convert.tla (array shape x event rank x named subset of batch dims incl. a name left of the array; funsor x name_to_dim; tensor x every (partial) permutation of up to 4 inputs; align_tensor(s); lazy term, Contraction, Delta, Gaussian x permutations; materialize) and checks on each, as invariants, that implementation-shaped models transcribed from tensor_to_funsor, tensor_to_data, Tensor.align, align_tensor, Contraction/Delta/Gaussian.align and materialize refine the denotational definitions (value at a name assignment = array element at the named coordinates), reject exactly the non-convertible cases, and are mutually inverse up to size-1 batch dimensions. Every case is emitted with position-coded contents and its expected projection and replayed into the real API (to_funsor, to_data, round trips, align, align_tensor(s), materialize; float and bounded-integer dtypes): inputs, input order after align, output, data layout and the value at every named point must equal TLC's expectation. Exhaustive below the bounds.",
+                note="trusted: TLC, Values/Sem.tla, the transcription in Convert.tla (bound by per-case replay), harness/convdriver.py argument construction and numpy indexing; bounds: quick ranks 0-4, thorough ranks 0-5, sizes 1-3 (1-4 in thorough), event ranks 0-2, align of tensors with <=4 inputs; lazy/Contraction/Delta over a fixed list of base terms with full permutations only; numpy backend; one open finding (Delta.align on batched points raises)"),
 }
 
 NOT_YET = "check not built yet in this round (planned, see DESIGN.md section 5)"
@@ -67,6 +73,10 @@ def main():
              "kind_free_text": "TLA+ build-and-evaluate machine over the L1 term language (spec/Sem.tla, spec/Values.tla); lenses in spec/lens; replayed by harness/replay.py"},
             {"name": "SumProduct", "path": "spec/SumProduct.tla", "serves_properties": ["C09"],
              "kind_free_text": "TLA+ enumeration of plated factor graphs with the unrolled oracle as an L1 term; replayed by harness/modes.py:c09"},
+            {"name": "OpsAlgebra", "path": "spec/OpsAlgebra.tla", "serves_properties": ["C15"],
+             "kind_free_text": "TLA+ laws over the recorded op tables + exact op grid / einsum generators (OpsMeaning, OpsGrid, OpsEinsum); replayed by harness/opsdriver.py"},
+            {"name": "Convert", "path": "spec/Convert.tla", "serves_properties": ["C19"],
+             "kind_free_text": "TLA+ denotational + implementation-shaped models of array<->funsor conversion and alignment; replayed by harness/convdriver.py"},
             {"name": "Judge", "path": "spec/Judge.tla", "serves_properties": ["C02", "C08"],
              "kind_free_text": "TLA+ trace specification that consumes recorded events (rule firings, emitted terms) and decides them with the L1 denotation"},
         ],
